@@ -21,7 +21,7 @@ MANIFEST = {
 }
 
 RULE = ("inputs = a rotating quarter (quick) or all (thorough) of /repo's XGo corpus incl. test snippets, every sugar piece, and mutants of "
-        "corpus/generated packages by 22 mutation kinds (near-miss + token drop/insert/swap/dup-span/truncate/nesting/splice, 1-3 per input); "
+        "corpus/generated packages by 24 mutation kinds (near-miss + stray statements + token drop/insert/swap/dup-span/truncate/nesting/splice, 1-3 per input); "
         "each input goes through parser.ParseFSDir, cl.NewPackage (also on partial ASTs, also with a Recorder), build.BuildFSDir and "
         "build.BuildFile; non-trivial = the parser did not panic; distinct = distinct file set")
 
